@@ -96,11 +96,11 @@ func tokText(t CTok) string {
 // ---- AST
 
 type CExpr struct {
-	Op    string // ident num str char bin un call index slice field old forall exists ite paren
-	Name  string // ident name, operator, field name, function name
-	Args  []*CExpr
-	Vars  []CParam // quantifier variables
-	Src   string
+	Op   string // ident num str char bin un call index slice field old forall exists ite paren
+	Name string // ident name, operator, field name, function name
+	Args []*CExpr
+	Vars []CParam // quantifier variables
+	Src  string
 }
 
 type CParam struct {
@@ -273,8 +273,20 @@ func (p *cparser) parseExpr() *CExpr {
 				p.expect(token.SEMICOLON)
 			}
 		}
+		// optional trigger:  forall x T :: {pattern, pattern} body   (kept as Args[1:])
+		var pats []*CExpr
+		if p.peek().Tok == token.LBRACE {
+			p.next()
+			for {
+				pats = append(pats, p.parseTernary())
+				if !p.accept(token.COMMA) {
+					break
+				}
+			}
+			p.expect(token.RBRACE)
+		}
 		body := p.parseExpr()
-		return &CExpr{Op: op, Vars: vars, Args: []*CExpr{body}}
+		return &CExpr{Op: op, Vars: vars, Args: append([]*CExpr{body}, pats...)}
 	}
 	if p.isIdent("let") {
 		p.next()
@@ -473,38 +485,39 @@ type LoopContract struct {
 }
 
 type FuncContract struct {
-	Key       string
-	File      string
-	Line      int
-	Header    string
-	Recv      string // receiver name in header ("" if none)
-	Params    []string
-	Results   []string
-	Props     []string
-	Logical   []CParam
-	Requires  []Clause
-	Ensures   []Clause
-	Defines   []Clause // definitional postconditions: introduce a ghost/uninterpreted notion at this function; assumed at call sites, not checked against the body
-	Modifies  []Clause
-	ModAll    bool
-	Pure      bool
-	Assumed   bool
-	Inline    bool
-	NoReturn  bool
-	Loops     map[int]*LoopContract
-	Nilable   bool   // results may be nil pointers
-	Trusted   string // reason when Assumed
-	AllocBnd  int64
-	Opaque    bool
-	NilChecks bool
-	Lets      []letDef
-	Afters    []afterDef
-	Proves    []Clause // postconditions verified against the body even in an assumed contract
-	PerSite   bool // check every postcondition at each return site separately (smaller queries)
-	Splits    []Clause // case splits over entry-state conditions: an undecided obligation is retried under E and under !E
-	ReplayExpr string // Go boolean expression over p_<param> / r_<result>: the postcondition, for replaying models
-	ReplayHelp string // helper file under /verif/replay appended to the generated test
-	Atomic     bool
+	Key           string
+	File          string
+	Line          int
+	Header        string
+	Recv          string // receiver name in header ("" if none)
+	Params        []string
+	Results       []string
+	Props         []string
+	Logical       []CParam
+	Requires      []Clause
+	Ensures       []Clause
+	Defines       []Clause // definitional postconditions: introduce a ghost/uninterpreted notion at this function; assumed at call sites, not checked against the body
+	Modifies      []Clause
+	ModAll        bool
+	Pure          bool
+	Assumed       bool
+	Inline        bool
+	NoReturn      bool
+	Loops         map[int]*LoopContract
+	Nilable       bool   // results may be nil pointers
+	Trusted       string // reason when Assumed
+	AllocBnd      int64
+	Opaque        bool
+	NilChecks     bool
+	Lets          []letDef
+	Afters        []afterDef
+	Proves        []Clause // postconditions verified against the body even in an assumed contract
+	PerSite       bool     // check every postcondition at each return site separately (smaller queries)
+	FollowAliases bool
+	Splits        []Clause // case splits over entry-state conditions: an undecided obligation is retried under E and under !E
+	ReplayExpr    string   // Go boolean expression over p_<param> / r_<result>: the postcondition, for replaying models
+	ReplayHelp    string   // helper file under /verif/replay appended to the generated test
+	Atomic        bool
 }
 
 type letDef struct {
@@ -539,20 +552,20 @@ type Axiom struct {
 }
 
 type ContractDB struct {
-	Funcs  map[string]*FuncContract
-	Specs  map[string]*SpecFunc
-	Axioms []*Axiom
-	Sorts  map[string]bool
-	Consts map[string]*CExpr
-	Ghosts map[string]*CType
-	Macros map[string]*Macro
+	Funcs      map[string]*FuncContract
+	Specs      map[string]*SpecFunc
+	Axioms     []*Axiom
+	Sorts      map[string]bool
+	Consts     map[string]*CExpr
+	Ghosts     map[string]*CType
+	Macros     map[string]*Macro
 	NonNilMaps map[string]string
 	// StableFields: "pkg.Type.field" -> comma-separated function keys that are the only writers of the field
 	// (checked structurally on every run); such a field keeps its value across interference and unknown calls.
 	StableFields map[string]string
-	ObjInvs map[string][]Clause
-	Files  []string
-	SpecOrder []string
+	ObjInvs      map[string][]Clause
+	Files        []string
+	SpecOrder    []string
 }
 
 func NewContractDB() *ContractDB {
@@ -563,7 +576,7 @@ var clauseKeywords = map[string]bool{
 	"property": true, "spec": true, "axiom": true, "lemma": true, "func": true, "requires": true, "ensures": true,
 	"modifies": true, "pure": true, "inline": true, "assume": true, "loop": true, "invariant": true, "decreases": true,
 	"unroll": true, "logical": true, "sort": true, "noreturn": true, "nilable": true, "trusted": true, "alloc_bound": true,
-	"const": true, "stablefield": true, "opaque": true, "nilchecks": true, "let": true, "after": true, "ghost": true, "ghostfield": true, "macro": true, "mapinv": true, "replay": true, "replayhelp": true, "atomic": true, "persite": true, "split": true, "proves": true, "defines": true, "objinv": true,
+	"const": true, "stablefield": true, "opaque": true, "nilchecks": true, "let": true, "after": true, "ghost": true, "ghostfield": true, "macro": true, "mapinv": true, "replay": true, "replayhelp": true, "atomic": true, "persite": true, "split": true, "followaliases": true, "proves": true, "defines": true, "objinv": true,
 }
 
 type rawClause struct {
@@ -882,6 +895,8 @@ func (db *ContractDB) LoadFile(path string) error {
 				cur.NoReturn = true
 			case "nilable":
 				cur.Nilable = true
+			case "followaliases":
+				cur.FollowAliases = true
 			case "opaque":
 				cur.Opaque = true
 			case "nilchecks":
@@ -1017,9 +1032,10 @@ func indexTopEq(s string) int {
 }
 
 // parseFuncHeader understands
-//   (s *SlidingWindow) Mark(seq uint64) (ok bool)
-//   bytes.Equal(a, b []byte) (r bool)
-//   (b *bytes.Buffer) Write(p []byte) (n int, err error)
+//
+//	(s *SlidingWindow) Mark(seq uint64) (ok bool)
+//	bytes.Equal(a, b []byte) (r bool)
+//	(b *bytes.Buffer) Write(p []byte) (n int, err error)
 func parseFuncHeader(text, pkgName string) (*FuncContract, error) {
 	fc := &FuncContract{Header: text}
 	s := strings.TrimSpace(text)
